@@ -69,3 +69,52 @@ Proof.
   split; [right|reflexivity]. intros k Hk. simpl in Hk.
   destruct k as [|[|[|k]]]; simpl; try lra. lia.
 Qed.
+
+(* ==== every composition of the preference-function combinators, and several cumulative ranges ============================
+   Proofs/FnProofs.v (induction on the AST of Model/Fn.v), Proofs/RangesProofs.v (contiguous slot ranges). *)
+From DK.Proofs Require Import RangesProofs FnProofs.
+
+(* wf_fn: what the combinators validate (RangesFunction: contiguous ranges from 0 covering the vector; ABCCost: natural
+   exponents, the executable fragment). smooth_fn: the peak of a DemandFunction argument is attained at one index only. *)
+Theorem C01_function_ast_every_composition : forall (f : fn R) (x : list R),
+  wf_fn f (length x) -> smooth_fn f x -> grad_at (feval f) (fderiv f x) x.
+Proof. exact fn_grad. Qed.
+
+Theorem C01_adevice : forall n b cb f ucs (s p : list R), length s = n -> length p = n -> wf_fn f n -> smooth_fn f s ->
+  grad_at (fun s' => leaf_cost (Build_leafdev n b cb (KA f ucs)) s' p) (leaf_deriv (Build_leafdev n b cb (KA f ucs)) s p) s.
+Proof. exact grad_adevice. Qed.
+
+(* what the two predicates say about the list-carrying combinators *)
+Theorem C01_wf_of_a_sum : forall fs n, wf_fn (FSum fs) n -> forall g, In g fs -> wf_fn g n.
+Proof. exact wf_sum_in. Qed.
+Theorem C01_wf_of_ranges : forall rs n, wf_fn (FRanges rs) n ->
+  chain rst ren 0 rs n /\ forall s e g, In (s, e, g) rs -> wf_fn g (e - s).
+Proof. exact wf_ranges_in. Qed.
+Theorem C01_chain_means_contiguous_cover : forall (rs : list (nat * nat * fn R)) a n r, chain rst ren a rs n -> In r rs ->
+  (a <= rst r /\ rst r <= ren r /\ ren r <= n)%nat.
+Proof. exact (chain_in rst ren). Qed.
+
+(* the peak term alone: polynomial of max(x), gradient on the (unique) arg-max slot *)
+Theorem C01_peak_demand : forall (c x : list R), unique_max x ->
+  grad_at (fun y => horner (A:=R) c (vmax y)) (upd (zeros (length x)) (argmax x) (horner (A:=R) (pderiv c) (vmax x))) x.
+Proof. exact grad_demand. Qed.
+Theorem C01_argmax_is_the_unique_peak : forall (l : list R) m, (m < length l)%nat ->
+  (forall i, (i < length l)%nat -> i <> m -> nth i l 0 < nth m l 0) -> argmax l = m.
+Proof. exact argmax_unique. Qed.
+
+(* a function summed over contiguous ranges: the gradient is the concatenation of the per-range gradients *)
+Theorem C01_ranges_generic : forall (T : Type) (st en : T -> nat) (F : T -> list R -> R) (x : list R) (G : T -> list R) rs,
+  chain st en 0 rs (length x) -> (forall r, In r rs -> grad_at (F r) (G r) (slice (st r) (en r) x)) ->
+  grad_at (ranged_sum st en F rs) (flat_map G rs) x.
+Proof. exact @ranged_grad. Qed.
+
+(* CDevice2 with any number of contiguous cumulative ranges covering 0..n (generalises C01_cdevice2_one_range) *)
+Theorem C01_cdevice2_contiguous_ranges : forall n b cbs pl ph (s p : list R), length s = n -> length p = n -> cb_chain cbs n ->
+  grad_at (fun s' => leaf_cost (Build_leafdev n b cbs (KC2 pl ph)) s' p) (leaf_deriv (Build_leafdev n b cbs (KC2 pl ph)) s p) s.
+Proof. exact grad_cdevice2_multi. Qed.
+
+(* non-vacuity: a sum of (two ranges: a total-flow kernel and a peak term) and a reflected per-slot polynomial, at (1,2,3) *)
+Example C01_fn_example : wf_fn ex_fn 3 /\ smooth_fn ex_fn [1; 2; 3] /\ hsmooth_fn ex_fn [1; 2; 3].
+Proof. exact example_fn. Qed.
+Example C01_cdevice2_ranges_example : cb_chain [(1, 2, 0%nat, 2%nat); (3, 5, 2%nat, 4%nat)] 4.
+Proof. exact example_cb_chain. Qed.
